@@ -123,7 +123,7 @@ OpenWrittenOK(e, f) ==
     /\ Sane(info)
     /\ InfoMatches(f.fmt, f.ch, f.rate, info)
     /\ e.st.fr = e.fr /\ e.st.rp = 0
-    /\ IF f.kind = "written" THEN FramesAfterClose(f.fmt, f.B, f.N, e.fr)
+    /\ IF f.kind = "written" THEN FramesAfterClose(f.fmt, f.ch, f.B, f.N, e.fr)
        ELSE \* crash image (C11); DWVW has no frame aligned blocks: any prefix
             IF Sub(f.fmt) \in {S_DWVW12, S_DWVW16, S_DWVW24, S_DWVWN} THEN e.fr <= f.N
             ELSE FramesInImage(f.B, f.N, e.fr)
